@@ -25,8 +25,8 @@ byte for byte).  Spec monitors: `Witverif.Text.MdSpec`.
     reproduced on the real code by the check, class `doc-block-swallows-anchor`).
 (3) documentation text is verbatim
   * `docs_verbatim_partial`      every line of every doc comment that has a `docs(..)` call, trimmed, is in the `.md`
-  * `docs_verbatim_full_false`   the full statement (every doc comment of the world) is FALSE of the code:
-                                 the doc comment of an *exported* interface is not printed.
+  * `docs_verbatim`              the full statement: every doc comment of the world (the doc comment of an exported-only
+                                 interface was dropped until the `fix:` commit for `export_interface`; witness kept as example)
 -/
 namespace Witverif.Props.C29
 open Witverif.Text Witverif.Text.Md Witverif.Text.MdSpec Witverif.Text.RustStr
@@ -196,25 +196,19 @@ theorem docs_verbatim_partial_monitor (w : World) (st : St) (hg : gen w = .ok st
 def exportDocWorld : World :=
   ⟨s "w", none, [], [.iface (s "t:t/j") ⟨some (s "Q"), [], [⟨s "f", none, [], none⟩]⟩]⟩
 
-/- Full statement ("every documentation comment appears …"):
-     ∀ w st, gen w = .ok st → docsVerbatim st.src.s w
-   It is false of the code: `export_interface` never prints the interface's own doc comment. -/
-theorem docs_verbatim_full_false :
-    ¬ ∀ (w : World) (st : St), gen w = .ok st → docsVerbatim st.src.s w = true := by
-  intro h
-  have key : (match gen exportDocWorld with
-      | .ok st => docsVerbatim st.src.s exportDocWorld
-      | .panic _ => true) = false := by decide +kernel
-  cases hg : gen exportDocWorld with
-  | ok st =>
-    have := h exportDocWorld st hg
-    rw [hg] at key
-    simp only at key
-    rw [this] at key
-    exact absurd key (by decide)
-  | panic m =>
-    rw [hg] at key
-    simp at key
+/-- Full statement: whenever generation succeeds, EVERY doc comment of the world — including the doc
+comment of an exported-only interface, printed since the `fix:` commit for `export_interface` — occurs in
+the `.md`, each line trimmed, character for character.  (Exported type items cannot exist in a world
+on which generation succeeds: `unreachable!()`.)  Per line, as `docs_verbatim_partial`. -/
+theorem docs_verbatim (w : World) (st : St) (hg : gen w = .ok st) :
+    ∀ d ∈ allDocs w, ∀ l ∈ lines d, trim l <:+: st.src.s := by
+  intro d hd
+  exact docs_verbatim_partial w st hg d (allDocs_sub_printedDocs w (run_ok_noPanic _ _ _ hg) d hd)
+
+/-- the export-only witness of the former defect: its doc comment `Q` is in the `.md` -/
+example : (match gen exportDocWorld with
+    | .ok st => docsVerbatim st.src.s exportDocWorld
+    | .panic _ => false) = true := by decide +kernel
 
 /-! ## non-vacuity -/
 
